@@ -290,11 +290,12 @@ def gate_order(R, ctx):
     # the text the filter sees is the Display rendering of the message
     if ctx.has('textfilter'):
         b = ctx.body(r'^<flexi_logger::FlexiLogger as log::Log>::log$')
-        clos = [x for x in ctx.f.fn_bodies() if x.kind == 'Closure' and x.path.startswith(b.path + '::')]
         okm = False
-        for x in clos:
+        nmatch = 0
+        for x in with_closures(ctx.f, b):       # the test may live in log() itself or in a closure of it
             for bb, t in x.calls():
                 if callee_name(t) == 'regex::Regex::is_match':
+                    nmatch += 1
                     p = ctx.ip.prov(x.path)
                     roots = p.op_roots(t['args'][1])
                     okm = any(r_[0] in ('call', 'via') and r_[1].endswith('ToString>::to_string') for r_ in roots)
@@ -302,9 +303,11 @@ def gate_order(R, ctx):
                     for r_ in roots:
                         if r_[0] in ('call', 'via') and r_[1].endswith('ToString>::to_string'):
                             tt = x.blocks[r_[2]]['term']
-                            rr = p.op_roots(tt['args'][0])
+                            rr = {q for (_, q) in ctx.ip.expand(x.path, p.op_roots(tt['args'][0]))}
                             args_ok = any(q[0] == 'call' and q[1].endswith("Record::<'a>::args") for q in rr)
                     okm = okm and args_ok
+        if nmatch == 0:
+            raise CheckError('R02.3: no Regex::is_match call in FlexiLogger::log (text filter test not found)')
         R.check('R02.3', 'text-filter-input', okm, "is_match(record.args().to_string())",
                 "the text filter is not applied to the Display rendering of record.args()", where=b.loc())
 
@@ -377,8 +380,10 @@ def _writer_elem(x, r, MLL):
 
 
 def max_over_all(ctx, body, arg_names, effects, base, elem, elem_of, source, need_base=False):
-    """the function's result is the maximum of a base value and one value per element of a collection, whatever the form
-    (for loop with std::cmp::max, fold, map().max().unwrap_or(base)); leaves equal to the base constant are neutral."""
+    """the function's result is the maximum of a base value and one value per element of a collection, whatever the form:
+    a loop with std::cmp::max, fold, map().max().unwrap_or(base) (leaves of nested max calls; leaves equal to the base are
+    neutral), or a running maximum kept by comparisons (`if v > max { max = v }`: the ordering atoms decided on the row
+    must place every candidate below the value returned)."""
     I = FDI(ctx.f, effects=[NEXT] + list(effects), loop_k=2, no_inline=effects)
     rows = I.run(body.path, arg_names=arg_names)
     n = 0
@@ -391,6 +396,7 @@ def max_over_all(ctx, body, arg_names, effects, base, elem, elem_of, source, nee
             if source not in T.fields_in(e[2]['x'][0]):
                 return False, f"iterates {r.long(e[1][0])[:80]} instead of self.{source}", n
         present = []
+        rel = []
         for a, v in r.cond:
             info = r.atom_info.get(a, {})
             if info.get('kind') == 'variant':
@@ -399,21 +405,52 @@ def max_over_all(ctx, body, arg_names, effects, base, elem, elem_of, source, nee
                     if v == 'Some':
                         present.append(xs[2])
                     continue
+            if info.get('kind') == 'ord':
+                rel.append((T.strip_refs(info['a']), T.strip_refs(info['b']), v))
+                continue
             return False, f"the result depends on a condition besides the length of the collection: {a[:100]} = {v}", n
-        leaves = T.max_leaves(I_x(r.result))
-        got_base = [l for l in leaves if base(T.strip_refs(l))]
-        rest = [l for l in leaves if not base(T.strip_refs(l))]
+        leaves = [T.strip_refs(l) for l in T.max_leaves(I_x(r.result))]
+        got_base = [l for l in leaves if base(l)]
+        rest = [l for l in leaves if not base(l)]
         covered = set()
         for l in rest:
             k = elem_of(l, r) if elem(l, None) else None
             if k is None:
                 return False, f"unexpected operand of the maximum: {str(l)[:120]}", n
             covered.add(k)
+        if rel:
+            # running maximum: a <= b edges from the decided comparisons, reflexive-transitive closure
+            le = set()
+            exprs = {repr(l): l for l in leaves}
+            for (xa, xb, v) in rel:
+                exprs[repr(xa)], exprs[repr(xb)] = xa, xb
+                if v in ('lt', 'eq'):
+                    le.add((repr(xa), repr(xb)))
+                if v in ('gt', 'eq'):
+                    le.add((repr(xb), repr(xa)))
+            for e_ in exprs:
+                le.add((e_, e_))
+            for m_ in exprs:
+                for x_ in exprs:
+                    for y_ in exprs:
+                        if (x_, m_) in le and (m_, y_) in le:
+                            le.add((x_, y_))
+            below = lambda e_: any((e_, repr(l)) in le for l in leaves)
+            for e_, x_ in exprs.items():
+                if base(x_):
+                    if below(e_):
+                        got_base.append(x_)
+                elif elem(x_, None):
+                    k = elem_of(x_, r)
+                    if k is not None and below(e_):
+                        covered.add(k)
+                else:
+                    return False, f"the result depends on a comparison with something that is neither the base nor an element's value: {str(x_)[:100]}", n
         if covered != set(present):
             return False, f"with {len(present)} element(s) the result covers {len(covered)} of them (result {r.long(repr(r.result))[:120]})", n
         if (need_base and not present and not got_base) or (not need_base and not got_base):
             return False, f"the base value is not part of the result for {len(present)} element(s)", n
-        if re.search(r'\bmin\b', repr(I_x(r.result))):
+        if re.search(r"\bmin\b", repr(I_x(r.result))):
             return False, "uses min", n
         lens.add(len(present))
         n += 1
